@@ -16,7 +16,7 @@ EXPLANATION = ("Lean theorems: sl2_irrep (general-n formula of the source) is mu
                "det = (det A)^3; gln_adjoint / sln_adjoint are multiplicative and unital for every n (linear_matrix_action is functorial "
                "on linear maps) and sln_adjoint preserves sln_killing_form; slc_to_slr and block_include are multiplicative and unital "
                "for every n; sl2c_to_so31 (complex numbers as pairs) is multiplicative, unital, real, and scales diag(-1,1,1,1) by "
-               "|det M|^2; the repaired o_to_pgl recovers ±A from sl2_to_so21(A) for every A with det ≠ 0 and is a homomorphism up to "
+               "|det M|^2 with determinant |det M|^4; the repaired o_to_pgl recovers ±A from sl2_to_so21(A) for every A with det ≠ 0 and is a homomorphism up to "
                "sign on that image; for the pinned extraction the negation is proved (witness [[2,3],[1,2]] ↦ [[2,1],[3,2]]). Exact "
                "ℚ / ℚ(i) correspondence of every map with the executed model (single matrices and arrays); float oracles for the "
                "homomorphism laws, preserved structures and the ±A recovery.")
